@@ -84,7 +84,7 @@ def server_handler(mode, state):
     return handler
 
 
-def user_ops(conn, log, lock, ops, final, i):
+def user_ops(conn, log, lock, ops, final, i, make_packet=None):
     """The calls one user thread makes; every call is logged before it is
     invoked and after it returned or raised, and after each one the thread
     must no longer own the write lock."""
@@ -106,7 +106,8 @@ def user_ops(conn, log, lock, ops, final, i):
             continue
         log.emit('api.call', op='write', msg=msg, force=kind == 'f')
         try:
-            conn.write_packet(serverbound.play.ChatPacket(message=msg),
+            conn.write_packet(make_packet(msg) if make_packet else
+                              serverbound.play.ChatPacket(message=msg),
                               force=kind == 'f')
             log.emit('api.ret', op='write', msg=msg)
         except Exception as e:
@@ -498,6 +499,132 @@ def stress_run(run, rng, cfg, idx):
             pc.safe_disconnect(conn)
 
 
+def big_body(tag, size):
+    """Deterministic, incompressible filler derived from the tag."""
+    import hashlib
+    out, h = [], tag.encode()
+    n = 0
+    while n < size:
+        h = hashlib.sha256(h).digest()
+        out.append(h)
+        n += len(h)
+    return b''.join(out)[:size]
+
+
+def backpressure_run(run, rng, mode, idx):
+    """Environment shaping instead of scheduling: tiny socket buffers and a
+    server that does not read for a while, so that every large frame meets a
+    full send buffer (a send that the kernel cannot take in one piece)."""
+    import socket as _socket
+    from minecraft.networking import connection as C
+    from minecraft.networking.packets import serverbound
+    from ..ref import varint as rvarint
+    codec = codec_for(PV)
+    state = {'threshold': 1 << 30}
+    n_threads = rng.randrange(1, 4)
+    sizes = {}
+    threads = []
+    for t in range(n_threads):
+        ops = []
+        for k in range(rng.randrange(2, 6)):
+            tag = 'bp%d.t%d.%d' % (idx, t, k)
+            sizes[tag] = rng.choice((3000, 70000, 200000, 400000))
+            ops.append((rng.choice(('q', 'f')), tag))
+        threads.append(ops)
+    final = (None, False)
+    stall = rng.choice((0.1, 0.3))
+    PLUGIN_ID = 0x0A           # serverbound plugin message, protocol 757
+
+    def handler(io):
+        io.sock.setsockopt(_socket.SOL_SOCKET, _socket.SO_RCVBUF, 65536)
+        scripts.read_handshake(io)
+        io.recv_frame()
+        if mode == 'encrypted':
+            scripts.encryption_exchange(io, codec)
+        scripts.send_login_success(io, PV, codec)
+        state['in_play'] = True
+        msgs = []
+        state['msgs'] = msgs
+        state['go'].wait(10.0)
+        time.sleep(stall)                    # the client's buffer fills up
+        while True:
+            fr = io.recv_frame(20.0)
+            if fr is None:
+                break
+            if fr[0] != PLUGIN_ID:
+                msgs.append('<id=%d>' % fr[0])
+                continue
+            n, pos = rvarint.decode(fr[1], 0)
+            data = bytes(fr[1][pos + n:])
+            tag, _, body = data.partition(b'|')
+            tag = tag.decode('latin-1')
+            if tag in sizes and body == big_body(tag, sizes[tag]):
+                msgs.append(tag)
+            else:
+                msgs.append('<corrupt %r len=%d>' % (tag[:20], len(data)))
+        state['eof'] = True
+        state['partial'] = io.partial_at_eof
+    state['go'] = threading.Event()
+    server = mcserver.Server(handler)
+    log = pc.EventLog()
+    rec = pc.Recorder(log)
+    conn = None
+    w = {'mode': mode, 'backpressure': idx, 'stall': stall,
+         'sizes': [[sizes[m] for _k, m in ops] for ops in threads]}
+
+    def make_packet(tag):
+        return serverbound.play.PluginMessagePacket(
+            channel='vf:bulk', data=tag.encode() + b'|' +
+            big_body(tag, sizes[tag]))
+    try:
+        K = pc.monitored_connection_class()
+        conn = K('127.0.0.1', server.port, username='vfuser',
+                 allowed_versions={PV}, handle_exception=rec.handle_exception,
+                 handle_exit=rec.handle_exit)
+        conn.vf_log = log
+        conn.vf_rng = rng
+        conn.vf_sndbuf = 32768
+        lock = baton.LockProxy(baton.NullScheduler())
+        conn._write_lock = lock
+        conn.connect()
+        if not pc.wait_for(lambda: isinstance(conn.reactor, C.PlayingReactor)
+                           and state.get('in_play'), 10.0):
+            return 'never reached play state'
+        state['go'].set()
+        ts = [threading.Thread(target=user_ops, args=(
+            conn, log, lock, threads[i], final, i, make_packet),
+            name='u%d' % i, daemon=True) for i in range(n_threads)]
+        for t in ts:
+            t.start()
+        for t in ts:
+            t.join(30.0)
+        if any(t.is_alive() for t in ts):
+            return 'watchdog: writers alive ' + pc.dump_threads()[-900:]
+        sockp = conn.socket
+        log.emit('api.call', op='disconnect')
+        conn.disconnect()
+        log.emit('api.ret', op='disconnect')
+        if not pc.wait_idle(conn, 20.0):
+            return 'watchdog: threads alive ' + pc.dump_threads()[-900:]
+        run.count('backpressure.blocked_sends',
+                  getattr(sockp, 'blocked_sends', 0))
+        run.count('backpressure.short_sends', getattr(sockp, 'short_sends', 0))
+        server.join(25.0)
+        if [e for e in server.errors if e[1] in ('script', 'timeout')]:
+            return 'server: %r' % (server.errors[:1],)
+        if lock_leaks(run, log, w, 'backpressure'):
+            return None
+        judge(run, log, state, threads, final, server, w, 'backpressure')
+        run.count('backpressure.runs')
+        run.count('backpressure.bytes', sum(sizes.values()))
+        return None
+    finally:
+        state['go'].set()
+        server.stop()
+        if conn is not None:
+            pc.safe_disconnect(conn)
+
+
 def make_threads(rng, n_threads, n_ops, tag):
     threads = []
     for t in range(n_threads):
@@ -583,6 +710,21 @@ def run(run):
         run.case(('stress', i, cfg['mode'], repr(cfg['final'])))
         if err:
             run.inconclusive_because('stress %d: %s' % (i, err))
+    # ---- back-pressure ---------------------------------------------------
+    for i in range(96 if thorough else 8):
+        if not run.mine(i):
+            continue
+        mode = ('plain', 'encrypted')[i % 2]
+        err = None
+        for attempt in range(2):
+            err = backpressure_run(run, rng, mode, i)
+            if err is None:
+                break
+        run.case(('backpressure', i, mode))
+        if err:
+            run.inconclusive_because('backpressure %d: %s' % (i, err))
+    run.require('backpressure.runs', 2)
+    run.require('backpressure.blocked_sends', 1)
     run.require('baton.schedules', 20)
     run.require('baton.distinct_schedules', 10)
     run.require('baton.frames_checked', 20)
